@@ -197,7 +197,8 @@ theorem rBytes_wBytes (p : Proto) (b : Bytes) (h : b.length ≤ 2147483647) (res
     subst this; simp
   · have : (b.length == 0) = false := by simpa using h0
     simp only [this, Bool.false_eq_true, if_false]
-    exact readN_append b rest _ rfl
+    rw [readN_append b rest _ rfl]
+    rfl
 
 /-! ### containers and field headers -/
 
